@@ -252,7 +252,13 @@ class SimPopen:
                 os.write(fd, late)
             elif 'stdout' in self._pipes:
                 self._pipes['stdout'] += late
-        return self._finish(int(self._b.get('exit', 0)))
+        return self._finish(self._exit_code())
+
+    def _exit_code(self) -> int:
+        seq = self._b.get('exit_by_invocation')  # a program that ends differently each time it is run
+        if seq:
+            return int(seq[min(self.rec['n'], len(seq)) - 1])
+        return int(self._b.get('exit', 0))
 
     @kernel.guarded(allow=(subprocess.TimeoutExpired,))
     def communicate(self, input=None, timeout=None):
